@@ -340,7 +340,8 @@ def oracle(ctx, c, r, idx):
                     ctx.fail("seen-unannounced", "a connection handler was given registration object %d (key %d) that was "
                              "not announced/validated in its current lifetime (step %d)" % (o, k, i), replay)
                 res = COVERTS[c["regs"][o]["ci"]][1] if 0 <= o < len(c["regs"]) else None
-                if k not in removed_ever and "reload" not in kinds and (res is None or cv != res or not cov_ok(c["regs"][o]["ci"], POLICIES[0])):
+                pols = [0] + [t["to"] for t in c["threads"] if t["kind"] == "reload"]
+                if res is None or cv != res or not any(cov_ok(c["regs"][o]["ci"], POLICIES[p]) for p in pols):
                     ctx.fail("seen-unchecked-covert", "a connection handler was given a registration whose covert address %r was "
                              "never checked against the covert policy (step %d; two ingests of one key raced)" % (cv, i), replay)
     # terminal, sweeper-free, reload-free: the outcome must be one a serial order produces
@@ -446,10 +447,28 @@ RACE_RE = re.compile(r"WARNING: DATA RACE\n(.*?)\n==================", re.S)
 
 
 def race_key(block):
-    fns = re.findall(r"^\s+(?:github\.com/refraction-networking/conjure/)?(\S+?)\(\)\n\s+\S+/([\w.]+\.go):\d+", block, flags=re.M)
-    mine = [f for f, fl in fns if not fl.startswith("zz_verif") and "c9" not in f and "testing." not in f]
-    top = sorted(set(mine[:1] + [f for f in mine if "OnReload" in f][:1]))
-    return "/".join(x.split("/")[-1] for x in top) or "unknown"
+    """a stable name for a race report: for the reload, the field it writes; otherwise the two innermost conjure functions"""
+    import lib
+    m = re.search(r"\(\*RegistrationManager\)\.OnReload\(\)\n\s+(\S+\.go):(\d+)", block)
+    if m:
+        try:
+            path = m.group(1)
+            if not os.path.exists(path):
+                path = os.path.join(lib.REPO, "pkg/station/lib", os.path.basename(path))
+            line = open(path).read().splitlines()[int(m.group(2)) - 1]
+        except Exception:
+            line = ""
+        for f in ("PhantomSelector", "GeoIP"):
+            if f in line:
+                return "OnReload/" + f
+        return "OnReload/policy-lists"
+    accs = re.findall(r"(?:Read|Write|Previous read|Previous write) at .*?\n((?:\s+\S+\n\s+\S+\n)+)", block)
+    names = []
+    for a in accs:
+        fns = re.findall(r"^\s+(\S+?)\(\S*\)\n\s+(\S+):\d+", a, flags=re.M)
+        pick = [f for f, fl in fns if "conjure/" in f and "zz_verif" not in fl and ".c9" not in f]
+        names.append(pick[0].split("/")[-1] if pick else "driver")
+    return "+".join(sorted(set(names))) or "unknown"
 
 
 def run_stress(ctx, race):
@@ -473,6 +492,9 @@ def run_stress(ctx, race):
             for k, n in r["ann_per_key"].items():
                 if n > 1:
                     ctx.fail("announce-twice", "key %s announced %d times although nothing expired" % (k, n), replay)
+            if r["adds"] != len(r["valid_keys"]) or sum(r["ann_per_key"].values()) != len(r["valid_keys"]):
+                ctx.fail("double-count", "free-running ingest of duplicate registrations: %d validated registrations counted, %d announced, "
+                         "%d keys valid" % (r["adds"], sum(r["ann_per_key"].values()), len(r["valid_keys"])), replay)
     if race:
         seen = set()
         for m in RACE_RE.finditer(out):
@@ -511,6 +533,9 @@ def run(ctx):
                        "exhaustive interleavings for 2 workers of one key (and with a handler in the thorough tier), sampled beyond")
     ctx.level = "proof"
     ctx.coq_props()
+    rc_ex, out_ex = ctx.coq_make(["C09/Examples.vo", "C09/Refuted.vo"])
+    if rc_ex != 0:
+        ctx.broken("proof-obligation", "Examples.v / Refuted.v (non-vacuity and necessity witnesses) no longer check: " + out_ex[-500:])
     if ctx.replay and "distrib" in ctx.replay and "sched_cases" not in ctx.replay:
         run_distrib(ctx, split)
         return
